@@ -657,3 +657,231 @@ def apply_in_place(B, ty, rec, v2, rng, top=None):
                 setattr(top, name, pv)
             else:
                 setattr(rec, name, pv)
+
+
+# ------------------------------------------------------------------ families of message classes declared by INHERITANCE
+# "every message definition that can be composed" includes a message class derived from another registered message class
+# (`class ReplaceOrder(EnterOrder, indicator=ord('U'))`) with a body that extends the parent's body, a body of its own, or the
+# parent's body unchanged under another id; body records derived from body records.  Inheritance adds nothing to the wire format:
+# a message is its OWN id byte followed by its OWN field list (Props/C01Inherit.lean) - but everything a class remembers (per-class
+# caches, attributes looked up through the MRO) is remembered along the hierarchy, so what matters is WHICH class was used first.
+# A case is a family (several classes alive in one application) plus a HISTORY of uses in some order; every history runs on freshly
+# built classes.
+#
+#   fam  = {'style': itch|ouch|sqf, 'defs': [{'ind': id byte, 'parent': index of an earlier def | None,
+#           'mode': 'own' | 'extend' | 'same', 'rec_inherit': bool, 'own': [[name, ty, default]...]}]}
+#   hist = [{'k': def index, 'how': 'enc' | 'dec', 'val': abstract record value, 'tail': hex}]
+#          enc: build, encode through the message, decode through the application;   dec: the first use of the class is DEcoding
+#          (id byte + the body record's own encoding), then the decoded message is encoded
+FAMILY_MODES = ('own', 'extend', 'same')
+
+
+def family_body(fam, j):
+    """the flat body record type of def j: its own field list, resolved through the hierarchy"""
+    d = fam['defs'][j]
+    if d['parent'] is None or d['mode'] == 'own':
+        return ['record'] + d['own']
+    if d['mode'] == 'same':
+        return family_body(fam, d['parent'])
+    return family_body(fam, d['parent']) + d['own']
+
+
+def family_reg(fam):
+    return [[d['ind'], j, family_body(fam, j)[1:]] for j, d in enumerate(fam['defs'])]
+
+
+def build_family(B, fam):
+    """(application base class, [message classes], [body record classes]) - new classes on every call"""
+    from nasdaq_protocols import itch, ouch, sqf
+    _, s = lib()
+    style = fam['style']
+    app = f'verif_fam_{style}_{next(_counter)}'
+    core = {'itch': itch, 'ouch': ouch, 'sqf': sqf}[style]
+
+    def init_subclass(cls, **kwargs):
+        kwargs['app_name'] = app
+        super(base, cls).__init_subclass__(**kwargs)
+    base = type(f'VFam{next(_counter)}', (core.Message,), {'__init_subclass__': classmethod(init_subclass), '__test__': False},
+                app_name=app)
+    classes, bodies = [], []
+    for d in fam['defs']:
+        kw = {'indicator': d['ind']}
+        if style != 'itch':
+            kw['direction'] = 'outgoing'
+        ns = {'__test__': False}
+        p = d['parent']
+        if p is not None and d['mode'] == 'same':
+            body_cls = bodies[p]                       # no BodyRecord of its own: the parent's, under another id
+        else:
+            own = [s.Field(f'f{n}', B.build(fty), default_value=B.default_obj(fty, dv)) for n, fty, dv in d['own']]
+            name = f'VBody{next(_counter)}'
+            if p is not None and d['mode'] == 'extend':
+                pb = bodies[p]
+                if d.get('rec_inherit'):
+                    body_cls = type(name, (pb,), {'Fields': pb.Fields + own, '__test__': False})
+                else:
+                    body_cls = type(name, (s.Record,), {'Fields': list(pb.Fields) + own, '__test__': False})
+            else:
+                body_cls = type(name, (s.Record,), {'Fields': own, '__test__': False})
+            ns['BodyRecord'] = body_cls
+        cls = type(f'VMsg{next(_counter)}', (classes[p] if p is not None else base,), ns, **kw)
+        classes.append(cls)
+        bodies.append(body_cls)
+    return base, classes, bodies
+
+
+def family_step(B, fam, base, classes, step):
+    """one use of class k of a built family.  Returns (failure or None, observables or None);
+    observables = (reported n, bytes, consumed, index of the decoded class, decoded record val, actual record val)"""
+    k, v, tail = step['k'], step['val'], bytes.fromhex(step.get('tail', ''))
+    body = family_body(fam, k)
+    cls = classes[k]
+    ind = fam['defs'][k]['ind']
+    who = f'class {k}' + (f' (derived from class {fam["defs"][k]["parent"]})' if fam['defs'][k]['parent'] is not None else '')
+    try:
+        msg = cls()
+        rec = B.from_val(body, v, typed=True)
+        for name in list(rec.values):
+            setattr(msg, name, rec.values[name])
+        actual = to_val(body, msg.record)
+        if step['how'] == 'dec':
+            # first use of the class on the decoding side: id byte as declared + the body record's own encoding
+            bn, bb = guarded_call(lambda: cls.BodyRecord.to_bytes(msg.record))
+            b, n = bytes([ind]) + bytes(bb), 1 + bn
+        else:
+            n, b = guarded_call(msg.to_bytes)
+            b = bytes(b)
+        if n != len(b):
+            return f'{who}: reported length {n} != {len(b)} bytes', None
+        first = None
+        for data in (b + tail, bytearray(b + tail)):
+            m, dmsg = guarded_call(lambda: base.from_bytes(data))
+            first = first or (m, dmsg)
+            if type(dmsg) is not cls:
+                other = classes.index(type(dmsg)) if type(dmsg) in classes else type(dmsg).__name__
+                return f'{who} (id {ind}) was decoded as class {other}, not the class that was encoded (id byte on the wire: {b[0]})', None
+            if m != len(b):
+                return f'{who}: decode consumed {m} of {len(b)} bytes ({len(tail)} unrelated bytes follow)', None
+            diff = reads_differ(body, msg.record, dmsg.record)
+            for name_idx, fty, _d in body[1:]:
+                diff = diff or reads_differ(fty, getattr(msg, f'f{name_idx}'), getattr(dmsg, f'f{name_idx}'), f'msg.f{name_idx}')
+            if diff:
+                return f'{who}: field reads back different: {diff}', None
+            rn, rb = guarded_call(dmsg.to_bytes)
+            if bytes(rb) != b or rn != n:
+                return f'{who}: re-encoding the decoded message gives different bytes ({bytes(rb)[:12].hex()}… vs {b[:12].hex()}…)', None
+        bm, brec = guarded_call(lambda: cls.BodyRecord.from_bytes(b[1:] + tail))
+        if bm != len(b) - 1 or reads_differ(body, msg.record, brec):
+            return f'{who}: BodyRecord.from_bytes on the message body does not return the encoded record', None
+        m, dmsg = first
+        return None, (n, b, m, classes.index(type(dmsg)), sx(to_val(body, dmsg.record)), actual)
+    except Exception as e:  # noqa
+        return f'{who}: message round trip raised {err_name(e)}: {e!s:.80}', None
+
+
+def family_history(B, fam, hist):
+    """run a history on freshly built classes: (index of the first failing step, failure) or None, and the observables of the
+    steps that passed"""
+    try:
+        base, classes, _ = build_family(B, fam)
+    except Exception as e:  # noqa
+        return (-1, f'defining the {fam["style"]} message classes raised {err_name(e)}: {e!s:.80}'), []
+    obs = []
+    for i, st in enumerate(hist):
+        bad, o = family_step(B, fam, base, classes, st)
+        if bad:
+            return (i, bad), obs
+        obs.append(o)
+    return None, obs
+
+
+def gen_family(rng):
+    style = rng.choice(['itch', 'ouch', 'sqf'])
+    n = rng.choice([2, 2, 3, 3, 4, 5])
+    inds = rng.sample(range(256), n)
+    defs = []
+    for j in range(n):
+        own = gen_record_ty(rng, 'record', rng.choice([0, 0, 1, 2]), rng.randint(1, 4))[1:]
+        own = [[100 * j + nm, fty, d] for nm, fty, d in own]          # names unique along every chain
+        parent, mode = None, 'own'
+        if j > 0 and rng.random() < 0.75:
+            parent = rng.randrange(j) if rng.random() < 0.5 else j - 1   # chains (grandchildren) as well as siblings
+            mode = rng.choice(['extend', 'extend', 'extend', 'own', 'same'])
+        defs.append({'ind': inds[j], 'parent': parent, 'mode': mode, 'rec_inherit': rng.random() < 0.5,
+                     'own': [] if mode == 'same' else own})
+    return {'style': style, 'defs': defs}
+
+
+def gen_family_step(rng, fam, k, how=None):
+    import c01
+    return {'k': k, 'how': how or rng.choice(['enc', 'enc', 'dec']), 'val': gen_val(rng, family_body(fam, k)),
+            'tail': c01.gen_tail(rng).hex()}
+
+
+def family_orders(rng, fam):
+    """the orders of first use: definition order (every parent before its children), the reverse (every child before its parent),
+    and a shuffle with repeats"""
+    n = len(fam['defs'])
+    fwd = list(range(n))
+    mix = [rng.randrange(n) for _ in range(rng.randint(n, 2 * n))]
+    return [('parents-first', fwd + fwd[::-1]), ('children-first', fwd[::-1] + fwd), ('mixed', mix)]
+
+
+def family_replay_dict(fam, hist, kind_='msg-family'):
+    return {'kind': kind_, 'style': fam['style'],
+            'defs': [dict(d, own=sx(d['own'])) for d in fam['defs']],
+            'hist': [dict(st, val=sx(st['val'])) for st in hist]}
+
+
+def family_from_replay(rep):
+    defs = []
+    for d in rep['defs']:
+        own = [[int(n), ty_from_parsed(t), val_from_parsed(dv)] for n, t, dv in parse_sx(d['own'])[0]] if d['own'] != '()' else []
+        defs.append(dict(d, own=own))
+    hist = [dict(st, val=parse_val(st['val'])) for st in rep['hist']]
+    return {'style': rep['style'], 'defs': defs}, hist
+
+
+def shrink_family(B, fam, hist, fails):
+    """fewer steps, fewer classes, fewer fields, empty values - keeping `fails(fam, hist)`"""
+    import time
+    deadline = time.time() + 20
+
+    def drop_def(fam, hist, j):
+        if any(d['parent'] == j for d in fam['defs']) or any(st['k'] == j for st in hist):
+            return None
+        ren = lambda x: x if x < j else x - 1
+        defs = [dict(d, parent=None if d['parent'] is None else ren(d['parent'])) for i, d in enumerate(fam['defs']) if i != j]
+        return dict(fam, defs=defs), [dict(st, k=ren(st['k'])) for st in hist]
+
+    def cands(fam, hist):
+        for i in range(len(hist)):
+            yield fam, hist[:i] + hist[i + 1:]
+        for j in range(len(fam['defs'])):
+            r = drop_def(fam, hist, j)
+            if r:
+                yield r
+        for i, st in enumerate(hist):
+            if st['val'] != ['r']:
+                yield fam, hist[:i] + [dict(st, val=['r'])] + hist[i + 1:]
+            if st.get('tail'):
+                yield fam, hist[:i] + [dict(st, tail='')] + hist[i + 1:]
+        for j, d in enumerate(fam['defs']):
+            for f in range(len(d['own'])):
+                nm = d['own'][f][0]
+                defs = fam['defs'][:j] + [dict(d, own=d['own'][:f] + d['own'][f + 1:])] + fam['defs'][j + 1:]
+                h2 = [dict(st, val=['r'] + [x for x in st['val'][1:] if x[0] != nm]) for st in hist]
+                yield dict(fam, defs=defs), h2
+    progress = True
+    while progress and time.time() < deadline:
+        progress = False
+        for f2, h2 in cands(fam, hist):
+            if time.time() > deadline:
+                break
+            try:
+                if h2 and fails(f2, h2):
+                    fam, hist, progress = f2, h2, True
+                    break
+            except Exception:  # noqa
+                continue
+    return fam, hist
